@@ -225,6 +225,15 @@ def _s19(s):
             rep(2, It, 'padder', ('+', I(It), 1)), rep(2, It, 'wf', I(L), ('+', I(It), 6)), op(None, I(L))]
 
 
+@skeleton('label-declared-through-a-parameter-by-several-expansions', 3, lambda s: True)
+def _s20(s):
+    Q, L1, L2 = s
+    # a macro declares the label it is given; two expansions with the SAME label name declare it twice (the program has no image,
+    # with or without macros), with different names it is fine. also through an extern label of a macro expanded twice
+    return [mdef('decl', [Q], body=[lab(Q), op(None, I(Q))]),
+            call('decl', I(L1)), call('decl', I(L2)), op(None, I(L1)), op(I(L2), None)]
+
+
 def programs(pool=POOL):
     """yield (skeleton name, slots, program, collisions) for every well-formed assignment"""
     for name, n, wf, build in SKELETONS:
